@@ -364,6 +364,7 @@ func runTransfer(t *testing.T, sc Scenario, sum *summary, tf *vh.TraceFile) {
 		go func() {
 			defer close(samplerDone)
 			last := map[string][5]int{}
+			settledWnd := map[string]bool{}
 			sample := func(name string, s *kcp.UDPSession) {
 				st := s.VerifKCPState()
 				sets := 0
@@ -375,7 +376,14 @@ func runTransfer(t *testing.T, sc Scenario, sum *summary, tf *vh.TraceFile) {
 					return // unchanged since the last sample
 				}
 				last[name] = cur
-				w.Ev(map[string]any{"ev": "bounds", "conn": name, "rcvq": len(st.RcvQueue), "rcvb": len(st.RcvBuf), "rcvwnd": int(st.RcvWnd),
+				if vh.EnvInt("SESS_DEBUG", 0) == 2 && len(st.RcvBuf) > int(st.RcvWnd) {
+					sns := []uint32{}
+					for _, sg := range st.RcvBuf {
+						sns = append(sns, sg.Sn)
+					}
+					fmt.Printf("DEBUG %s t=%d rcv_nxt=%d wnd=%d rcv_buf=%v queue=%d\n", name, w.Now(), st.RcvNxt, st.RcvWnd, sns, len(st.RcvQueue))
+				}
+				w.Ev(map[string]any{"ev": "bounds", "conn": name, "rcvq": len(st.RcvQueue), "rcvb": len(st.RcvBuf), "rcvwnd": effRcvWnd(&settledWnd, name, st),
 					"sndb": len(st.SndBuf), "sndwnd": int(st.SndWnd), "sets": sets, "pool": 0, "rto": int(s.GetRTO()), "minrto": int(st.RxMinrto)})
 			}
 			for i := 0; ; i++ {
@@ -729,4 +737,22 @@ func TestSessClean(t *testing.T) {
 		sc.BackBytes = []int{0, 20000}[rng.Intn(2)]
 		sc.Bytes = 20000 + rng.Intn(150000)
 	})
+}
+
+// effRcvWnd: the receive window the bounds are judged by. An accepted session exists -- with the library's default window of 32 --
+// and buffers segments before the application can configure it (C04 assumes windows are set before traffic); until its queues have
+// once been seen within the configured window, the default window applies if it is larger.
+func effRcvWnd(settled *map[string]bool, name string, st kcp.VerifKCPState) int {
+	wnd := int(st.RcvWnd)
+	if (*settled)[name] {
+		return wnd
+	}
+	if len(st.RcvQueue) <= wnd && len(st.RcvBuf) <= wnd {
+		(*settled)[name] = true
+		return wnd
+	}
+	if wnd < 32 {
+		return 32
+	}
+	return wnd
 }
